@@ -437,6 +437,21 @@ class Inliner:
         for key, h in list(self.helpers.items()):
             if any(isinstance(n, ast.Call) and self._resolve(n, key[0]) is h for n in _walk_own(h.fn)):
                 del self.helpers[key]
+        # helpers the text mentions by name somewhere outside their own body (the others are reached, if at all, by a computed name -
+        # `getattr(self, "_map_" + kind)` - and are never dropped as dead code)
+        names_ = {h.fn.name for h in self.helpers.values()}
+        self.mentioned: Set[str] = set()
+        if names_:
+            own_ = {id(x) for h in self.helpers.values() for x in ast.walk(h.fn)}
+            for n in ast.walk(tree):
+                nm_ = n.id if isinstance(n, ast.Name) else n.attr if isinstance(n, ast.Attribute) else n.value if isinstance(n, ast.Constant) and isinstance(n.value, str) else None
+                if nm_ in names_ and id(n) not in own_:
+                    self.mentioned.add(nm_)
+                elif nm_ in names_:
+                    # mentioned inside a helper's body: counts unless it is that helper's own body
+                    for h in self.helpers.values():
+                        if h.fn.name != nm_ and any(x is n for x in ast.walk(h.fn)):
+                            self.mentioned.add(nm_)
 
     def _resolve(self, call: ast.Call, cls: Optional[str]) -> Optional[Helper]:
         f = call.func
@@ -2756,7 +2771,7 @@ def _drop_inlined_helpers(tree, inl, shared: frozenset):
     while changed:
         changed = False
         for (owner, name), h in list(inl.helpers.items()):
-            if name in shared:
+            if name in shared or name not in getattr(inl, "mentioned", {name}):
                 continue
             mentioned = False
             for n in ast.walk(tree):
@@ -2776,6 +2791,45 @@ def _drop_inlined_helpers(tree, inl, shared: frozenset):
                     holder.append(ast.Pass())
                 del inl.helpers[(owner, name)]
                 changed = True
+
+
+class _OperatorCalls(ast.NodeTransformer):
+    """N40  operator.eq(a, b) -> a == b, and so for ne lt le gt ge is_ is_not add sub mul floordiv mod and_ or_ xor not_ neg contains
+    getitem: the function of the standard `operator` module IS the operator (same dunder protocol, operands evaluated in the same
+    order).  Only where the module imports `operator` and never rebinds the name."""
+    CMP = {"eq": ast.Eq, "ne": ast.NotEq, "lt": ast.Lt, "le": ast.LtE, "gt": ast.Gt, "ge": ast.GtE, "is_": ast.Is, "is_not": ast.IsNot}
+    BIN = {"add": ast.Add, "sub": ast.Sub, "mul": ast.Mult, "floordiv": ast.FloorDiv, "mod": ast.Mod, "and_": ast.BitAnd, "or_": ast.BitOr, "xor": ast.BitXor,
+           "lshift": ast.LShift, "rshift": ast.RShift, "truediv": ast.Div, "pow": ast.Pow}
+
+    def visit_Call(self, node):
+        self.generic_visit(node)
+        f = node.func
+        if not (isinstance(f, ast.Attribute) and isinstance(f.value, ast.Name) and f.value.id == "operator") or node.keywords or any(isinstance(a, ast.Starred) for a in node.args):
+            return node
+        a = node.args
+        new = None
+        if f.attr in self.CMP and len(a) == 2:
+            new = ast.Compare(left=a[0], ops=[self.CMP[f.attr]()], comparators=[a[1]])
+        elif f.attr in self.BIN and len(a) == 2:
+            new = ast.BinOp(left=a[0], op=self.BIN[f.attr](), right=a[1])
+        elif f.attr == "not_" and len(a) == 1:
+            new = ast.UnaryOp(op=ast.Not(), operand=a[0])
+        elif f.attr == "neg" and len(a) == 1:
+            new = ast.UnaryOp(op=ast.USub(), operand=a[0])
+        elif f.attr == "contains" and len(a) == 2:
+            new = ast.Compare(left=a[1], ops=[ast.In()], comparators=[a[0]]) if _simple_arg(a[0]) or _simple_arg(a[1]) else None
+        elif f.attr == "getitem" and len(a) == 2:
+            new = ast.Subscript(value=a[0], slice=a[1], ctx=ast.Load())
+        if new is None:
+            return node
+        return ast.fix_missing_locations(ast.copy_location(new, node))
+
+
+def _imports_operator(tree) -> bool:
+    imp = any(isinstance(st, ast.Import) and any(al.name == "operator" and al.asname is None for al in st.names) for st in tree.body)
+    rebound = any(isinstance(n, ast.Name) and n.id == "operator" and isinstance(n.ctx, (ast.Store, ast.Del)) for n in ast.walk(tree)) \
+        or any(isinstance(n, ast.arg) and n.arg == "operator" for n in ast.walk(tree))
+    return imp and not rebound
 
 
 class _MembershipInModuleTuple(ast.NodeTransformer):
@@ -3147,6 +3201,8 @@ def normalise_module(module_name: str, tree: ast.Module, multiply_defined: froze
             searched = _next_search_to_loop(n) or searched
     if searched:
         tree.body = _merge_search_result(tree.body)
+    if _imports_operator(tree):
+        tree = _OperatorCalls().visit(tree)
     tree = _Isinstance(mt).visit(tree)
     if mt:
         tree = _MembershipInModuleTuple(mt).visit(tree)
